@@ -65,7 +65,7 @@ var carriers = []string{"GetBlob", "GetBlobRange", "GetManifest", "GetTag", "Res
 	"PushBlob", "PushBlobChunked", "PushBlobChunkedResume", "MountBlob", "PushManifest",
 	"DeleteBlob", "DeleteManifest", "DeleteTag", "Repositories", "Tags", "Referrers",
 	// errors raised by the backend's BlobWriter rather than by an Interface method ("<call>@<stage>")
-	"Writer@write", "Writer@close", "Writer@commit", "PushBlob@write", "PushBlob@commit", "Writer@write+close", "Writer@commit-after-refused-chunk",
+	"Writer@write", "Writer@close", "Writer@commit", "PushBlob@write", "PushBlob@commit", "Writer@write+close",
 	// the error of a method on a registry where everything else works
 	"MountBlob@only", "GetBlobRange@only",
 	// a listing that fails only when the client asks for its second page (page size 2)
@@ -189,10 +189,7 @@ func call(reg ociregistry.Interface, carrier string, hops int) error {
 		}
 		defer w.Close()
 		if _, err := w.Write(data); err != nil {
-			if !strings.HasSuffix(carrier, "@commit-after-refused-chunk") {
-				return err
-			}
-			// the caller carries on with the same writer after a chunk was turned away
+			return err
 		}
 		_, err = w.Commit(digest.FromBytes(data))
 		return err
@@ -282,12 +279,6 @@ func (w *failWriter) Close() error {
 	if w.stage == "close" {
 		return w.err
 	}
-	if w.stage == "commit-after-refused-chunk" && !w.failed && w.size > 0 {
-		// the first chunk request is turned away with an error of the passing kind; the error that
-		// is followed across the wire is the one the commit fails with afterwards
-		w.failed = true
-		return errSlowDown
-	}
 	if w.stage == "write+close" && w.failed {
 		// the upload is in a bad state after the failed write: closing it fails too, with
 		// another error - the one that matters is the first
@@ -296,8 +287,6 @@ func (w *failWriter) Close() error {
 	return nil
 }
 
-var errSlowDown = ociregistry.NewError("slow down", ociregistry.ErrTooManyRequests.Code(), nil)
-
 var errAfterFailedWrite = ociregistry.NewError("the upload is in a bad state", ociregistry.ErrBlobUploadInvalid.Code(), nil)
 
 func (w *failWriter) Size() int64    { return w.size }
@@ -305,7 +294,7 @@ func (w *failWriter) ChunkSize() int { return 0 }
 func (w *failWriter) ID() string     { return "upload-1" }
 func (w *failWriter) Cancel() error  { return nil }
 func (w *failWriter) Commit(dg ociregistry.Digest) (ociregistry.Descriptor, error) {
-	if w.stage == "commit" || w.stage == "close" || w.stage == "commit-after-refused-chunk" {
+	if w.stage == "commit" || w.stage == "close" {
 		return ociregistry.Descriptor{}, w.err
 	}
 	return ociregistry.Descriptor{Digest: dg, Size: w.size, MediaType: "application/octet-stream"}, nil
@@ -405,9 +394,6 @@ func through(s Script, n int) (observed, error) {
 				// the first failure is the one that carries the error (a writer that has
 				// failed may still be closed afterwards, which can cost a further request)
 				st = x
-				if strings.HasSuffix(s.Carrier, "@commit-after-refused-chunk") {
-					continue // (here it is the last one: the refused chunk comes first)
-				}
 				break
 			}
 		}
@@ -661,7 +647,7 @@ func genScript(t *rapid.T) Script {
 var prop = &vt.Prop[Script]{
 	ID:   "C07",
 	Name: "ErrorsAcrossTheWire",
-	Rule: "error values: each of the 15 standard codes, custom codes, no code; optional JSON detail (objects, arrays, scalars, null, spaced, numbers that float64 cannot hold); messages {empty, random UTF-8, beginning with the rendered code, with a status line, with both, stuttering, odd spacing}; 0-3 wrappers from {fmt %w, NewHTTPError(status)} with statuses 400-599 incl. ones without a reason phrase (419, 452, 499, 512, 599); carrier = each of the 18 Interface methods (GET, HEAD, POST, PUT, DELETE and list-based) and errors raised by the backend's BlobWriter at Write, Close or Commit (and at Write followed by a different failure of the Close that comes after it; and at a Commit made through the same writer after a chunk was turned away with a passing TOOMANYREQUESTS: the commit's error is the one that arrives) (reached through a chunked writer and through PushBlob), a MountBlob / a GetBlobRange that fails on a registry where everything else works, and tag / repository listings that fail when the second page is asked for or after the first item of a page; sent through 1..3 real server->client hops (a quarter of the time every client goes through ociauth's standard transport without credentials and every registry puts a Basic challenge on its 401 answers; a quarter of the time a front end declares the JSON answers as application/json; charset=utf-8), and for every hop count h <= hops; oracle = errors.Is against every standard value unchanged (HEAD carriers: the documented status mapping; ErrRangeInvalid status-based as documented), status on every hop = the specification's for the code, else the error's own HTTP status, else 500, code and detail JSON-equal, message after h hops == message after one hop; non-trivial = >= 2 hops, a wrapper, or a prefix-like message; distinct = (code, wraps, message class, carrier, hops, status)",
+	Rule: "error values: each of the 15 standard codes, custom codes, no code; optional JSON detail (objects, arrays, scalars, null, spaced, numbers that float64 cannot hold); messages {empty, random UTF-8, beginning with the rendered code, with a status line, with both, stuttering, odd spacing}; 0-3 wrappers from {fmt %w, NewHTTPError(status)} with statuses 400-599 incl. ones without a reason phrase (419, 452, 499, 512, 599); carrier = each of the 18 Interface methods (GET, HEAD, POST, PUT, DELETE and list-based) and errors raised by the backend's BlobWriter at Write, Close or Commit (and at Write followed by a different failure of the Close that comes after it) (reached through a chunked writer and through PushBlob), a MountBlob / a GetBlobRange that fails on a registry where everything else works, and tag / repository listings that fail when the second page is asked for or after the first item of a page; sent through 1..3 real server->client hops (a quarter of the time every client goes through ociauth's standard transport without credentials and every registry puts a Basic challenge on its 401 answers; a quarter of the time a front end declares the JSON answers as application/json; charset=utf-8), and for every hop count h <= hops; oracle = errors.Is against every standard value unchanged (HEAD carriers: the documented status mapping; ErrRangeInvalid status-based as documented), status on every hop = the specification's for the code, else the error's own HTTP status, else 500, code and detail JSON-equal, message after h hops == message after one hop; non-trivial = >= 2 hops, a wrapper, or a prefix-like message; distinct = (code, wraps, message class, carrier, hops, status)",
 	Gen:  genScript,
 	Run:  run,
 }
@@ -672,7 +658,7 @@ func TestPropErrors(t *testing.T) { vt.Check(t, prop) }
 var propGrid = &vt.Prop[Script]{
 	ID:   "C07",
 	Name: "ErrorGrid",
-	Rule: "complete grid: 15 standard codes + custom + none x 31 carriers x {bare, NewHTTPError(452) wrapper} over 2 hops",
+	Rule: "complete grid: 15 standard codes + custom + none x 30 carriers x {bare, NewHTTPError(452) wrapper} over 2 hops",
 	Run:  run,
 }
 
